@@ -14,6 +14,7 @@ import (
 	"os"
 	"path/filepath"
 	"sort"
+	"strings"
 	"sync"
 	"testing"
 
@@ -331,14 +332,57 @@ func fileKeys() []fileKey {
 				add(k2, true) // valid but kid-less
 			}
 		}
+		// structurally broken keys that DECLARE an approved algorithm: the JSON of a valid key with one
+		// member of its key material emptied or shortened. They are kept only when the JOSE library
+		// still parses them (so the file as a whole loads) and Validate - which the exhaustive table
+		// above decides - rejects them: loading such a key must fail like Validate does.
+		nbroken := 0
+		for i, fk := range append([]fileKey{}, fks...) {
+			if !fk.Valid || fk.Kid == "" || !strings.HasPrefix(fk.Kid, "good") {
+				continue
+			}
+			var members map[string]any
+			must(json.Unmarshal(fk.JSON, &members))
+			for _, field := range []string{"n", "e", "d", "x", "y"} {
+				orig, ok := members[field].(string)
+				if !ok {
+					continue
+				}
+				for vi, broken := range []string{"", orig[:len(orig)/2]} {
+					m2 := map[string]any{}
+					for k, v := range members {
+						m2[k] = v
+					}
+					m2[field] = broken
+					kid := fmt.Sprintf("broken-%d-%s-%d", i, field, vi)
+					m2["kid"] = kid
+					b, _ := json.Marshal(m2)
+					k, err := jwk.ParseKey(b)
+					if err != nil {
+						continue // would make the whole file unreadable: another class (junk files)
+					}
+					if jwkutil.Validate(k) == nil {
+						continue // the library considers it fine (e.g. a shortened RSA exponent): not broken
+					}
+					fks = append(fks, fileKey{JSON: b, Kid: kid, Valid: false, Thumb: "-"})
+					nbroken++
+				}
+			}
+		}
+		brokenKeys = nbroken
 	})
 	return fks
 }
 
-var recLoad = ev.New("TestPropLoadKey", "key-set files (JWKS form, or bare-JWK form for singletons) of 0-3 keys with distinct kids drawn from valid keys (private and public EdDSA/ES512/PS512), a valid kid-less key and invalid keys (HS512 oct, RS256, ES256, no alg), x requested id in {\"\", each kid, an absent kid}, plus unreadable and malformed files; LoadKey must return the key with that id / the only key, else fail; non-trivial = set of >=2 keys, or a selected key that is invalid; distinct by (file content, id)")
+var brokenKeys int
+
+var recLoad = ev.New("TestPropLoadKey", "key-set files (JWKS form, or bare-JWK form for singletons) of 0-3 keys with distinct kids drawn from valid keys (private and public EdDSA/ES512/PS512), a valid kid-less key and invalid keys (HS512 oct, RS256, ES256, no alg, and structurally broken keys - one member of the key material emptied or halved - that declare an approved algorithm), x requested id in {\"\", each kid, an absent kid}, plus unreadable and malformed files; LoadKey must return the key with that id / the only key, else fail; non-trivial = set of >=2 keys, or a selected key that is invalid; distinct by (file content, id)")
 
 func TestPropLoadKey(t *testing.T) {
 	all := fileKeys()
+	if brokenKeys == 0 {
+		t.Fatalf("harness: no structurally broken key survived parsing - the class would be vacuous")
+	}
 	dir := t.TempDir()
 	n := 0
 	ev.Check(t, 1500, 60000, func(t *rapid.T) {
@@ -412,6 +456,9 @@ func TestPropLoadKey(t *testing.T) {
 			if fmt.Sprintf("%x", tp) != want.Thumb || k.KeyID() != want.Kid {
 				t.Fatalf("LoadKey(id=%q) returned key kid=%q thumb=%x, want kid=%q thumb=%s", id, k.KeyID(), tp, want.Kid, want.Thumb)
 			}
+		}
+		if want != nil && strings.HasPrefix(want.Kid, "broken-") {
+			recLoad.Class("selected-key-structurally-broken")
 		}
 		nt := cnt >= 2 || selInvalid
 		recLoad.Case(ev.Hash(string(content), id), nt, fmt.Sprintf("keys=%d", cnt), fmt.Sprintf("ok=%v", err == nil))
